@@ -10,12 +10,18 @@ mod exact;
 mod gen;
 mod mon_arith;
 mod mon_base;
+#[cfg(feature = "math")]
 mod mon_c01;
+#[cfg(feature = "math")]
 mod mon_c10;
+#[cfg(feature = "math")]
 mod mon_c11;
+mod mon_c12;
 mod mon_c20;
 mod emit;
+#[cfg(feature = "math")]
 mod mon_fn;
+#[cfg(feature = "math")]
 mod mon_pow;
 mod pools;
 
@@ -28,6 +34,9 @@ pub const CFG_FEATURES: &str = "std";
 pub const CFG_FEATURES: &str = "nostd";
 
 pub fn cfg_name() -> &'static str {
+    if !cfg!(feature = "math") {
+        return "nomath";
+    }
     let soft = cfg!(feature = "soft");
     let chk = cfg!(debug_assertions);
     match (CFG_FEATURES, soft, chk) {
@@ -51,16 +60,25 @@ fn run_prop(prop: &str, c: &mut Ctx) -> bool {
         "C07" => mon_base::c07(c),
         "C08" => mon_base::c08(c),
         "C09" => mon_base::c09(c),
+        #[cfg(feature = "math")]
         "C10" => mon_c10::c10(c),
         "C20" => mon_c20::c20(c),
+        #[cfg(feature = "math")]
         "C01" => mon_c01::c01(c),
+        #[cfg(feature = "math")]
         "C11" => mon_c11::c11(c),
-        "C12" => mon_fn::c12(c),
+        "C12" => mon_c12::c12(c),
+        #[cfg(feature = "math")]
         "C13" => mon_pow::c13(c),
+        #[cfg(feature = "math")]
         "C14" => mon_fn::c14(c),
+        #[cfg(feature = "math")]
         "C15" => mon_fn::c15(c),
+        #[cfg(feature = "math")]
         "C16" => mon_fn::c16(c),
+        #[cfg(feature = "math")]
         "C17" => mon_fn::c17(c),
+        #[cfg(feature = "math")]
         "C18" => mon_fn::c18(c),
         _ => return false,
     }
@@ -196,19 +214,26 @@ fn main() {
                 }
             }
         }
+        #[cfg(feature = "math")]
         "stream" => {
             mon_c11::stream(a.seed, a.shard.unwrap_or(0), a.events.unwrap_or(1024), a.log);
         }
         "emit" => {
             let mut e = emit::Emit::new(prop, a.tier, a.seed, a.shard.unwrap_or(0), a.nshards.unwrap_or(1), a.scale);
             match prop {
-                "C12" => mon_fn::emit_c12(&mut e),
-                "C13" => mon_pow::emit_c13(&mut e),
-                "C14" => mon_fn::emit_c14(&mut e),
-                "C15" => mon_fn::emit_c15(&mut e),
-                "C16" => mon_fn::emit_c16(&mut e),
-                "C17" => mon_fn::emit_c17(&mut e),
-                "C18" => mon_fn::emit_c18(&mut e),
+                "C12" => mon_c12::emit_c12(&mut e),
+                #[cfg(feature = "math")]
+        "C13" => mon_pow::emit_c13(&mut e),
+                #[cfg(feature = "math")]
+        "C14" => mon_fn::emit_c14(&mut e),
+                #[cfg(feature = "math")]
+        "C15" => mon_fn::emit_c15(&mut e),
+                #[cfg(feature = "math")]
+        "C16" => mon_fn::emit_c16(&mut e),
+                #[cfg(feature = "math")]
+        "C17" => mon_fn::emit_c17(&mut e),
+                #[cfg(feature = "math")]
+        "C18" => mon_fn::emit_c18(&mut e),
                 _ => {
                     eprintln!("no emitter for {prop}");
                     std::process::exit(2);
